@@ -89,70 +89,86 @@ func runConvert(c *Ctx) {
 	nRet := len(core.Returns(cv))
 	c.R.Add("CONVERT", "Convert|no-other-path", "Convert", p.Pos(cv.Pos()), nRet == 2 && len(core.Calls(cv)) <= 2, "Convert has no path (fast path, cache, special case) besides these two", fmt.Sprintf("returns=%d calls=%d", nRet, len(core.Calls(cv))))
 
-	// ---- convertMulti
-	var builderCall, callCall *ssa.Call
-	for _, ci := range core.Calls(cm) {
-		cal := ci.Common().StaticCallee()
-		if cal == call {
-			callCall, _ = ci.(*ssa.Call)
-		} else if cal != nil && p.InTarget(cal) && cal.Signature.Results().Len() == 2 && core.TypeStr(cal.Signature.Results().At(0).Type()) == "*Func" {
-			builderCall, _ = ci.(*ssa.Call)
+	// ---- convertMulti (with its private helpers: the identity-function builder and/or a result helper)
+	var callCall, funcOf, makeFunc, newFunc *ssa.Call
+	for _, ci := range p.RegionCalls(cm) {
+		cl, _ := ci.(*ssa.Call)
+		if cl == nil {
+			continue
+		}
+		switch core.CalleeName(ci.Common()) {
+		case "reflect.FuncOf":
+			funcOf = cl
+		case "reflect.MakeFunc":
+			makeFunc = cl
+		}
+		switch ci.Common().StaticCallee() {
+		case call:
+			callCall = cl
+		case nf:
+			newFunc = cl
 		}
 	}
-	if builderCall == nil || callCall == nil {
+	for _, g := range p.Region(cm) {
+		c.R.Func(core.FuncName(g))
+	}
+	if callCall == nil {
 		c.R.Undecided("CONVERT", "convertMulti|shape", core.FuncName(cm), p.Pos(cm.Pos()), "convertMulti does not build a Func and call Call on it")
 		return
 	}
-	// Call receiver is the built Func; options are convertMulti's own variadic parameter
-	recvOK := false
-	if e, ok := callCall.Common().Args[0].(*ssa.Extract); ok && e.Tuple == ssa.Value(builderCall) && e.Index == 0 {
-		recvOK = true
+	if funcOf == nil || makeFunc == nil || newFunc == nil {
+		c.R.Undecided("CONVERT", "identity|shape", core.FuncName(cm), p.Pos(cm.Pos()), "identity-function builder does not use FuncOf/MakeFunc/NewFunc")
+		return
 	}
-	optsThrough := len(callCall.Common().Args) == 2 && callCall.Common().Args[1] == ssa.Value(cm.Params[1])
+	only := func(v ssa.Value, want func(ssa.Value) bool) bool {
+		srcs := p.ISources(v)
+		if len(srcs) == 0 {
+			return false
+		}
+		for _, s := range srcs {
+			if !want(s) {
+				return false
+			}
+		}
+		return true
+	}
+	isParam := func(i int) func(ssa.Value) bool {
+		return func(s ssa.Value) bool { return s == ssa.Value(cm.Params[i]) }
+	}
+	// Call receiver is the Func just built (and nothing else: no cache); options are convertMulti's own variadic parameter
+	recvOK := only(callCall.Common().Args[0], func(s ssa.Value) bool {
+		e, ok := s.(*ssa.Extract)
+		return ok && e.Tuple == ssa.Value(newFunc) && e.Index == 0
+	})
+	optsThrough := len(callCall.Common().Args) == 2 && only(callCall.Common().Args[1], isParam(1))
 	c.R.Add("CONVERT", "convertMulti|calls-Call-on-identity-func", core.FuncName(cm), p.InstrPos(callCall), recvOK && optsThrough,
 		"the identity function just built is resolved and executed by Call with the caller's options unmodified", fmt.Sprintf("receiver=%v options=%v", recvOK, optsThrough))
-	tgtThrough := builderCall.Common().Args[0] == ssa.Value(cm.Params[0])
-	c.R.Add("CONVERT", "convertMulti|builds-for-target", core.FuncName(cm), p.InstrPos(builderCall), tgtThrough, "the identity function is built for exactly the requested target types", fmt.Sprintf("ok=%v", tgtThrough))
+	fa := funcOf.Common().Args
+	sigOK := only(fa[0], isParam(0)) && only(fa[1], isParam(0))
+	c.R.Add("CONVERT", "convertMulti|builds-for-target", core.FuncName(cm), p.InstrPos(funcOf), sigOK, "the identity function is built for exactly the requested target types", fmt.Sprintf("ok=%v", sigOK))
 	// returns result.out on success, (nil, err) on failure
 	succ, fail := false, 0
-	for _, r := range core.Returns(cm) {
+	rets := p.IReturns(cm)
+	for _, r := range rets {
+		if len(r.Results) != 2 {
+			continue
+		}
 		if core.IsNilConst(r.Results[0]) && !core.IsNilConst(r.Results[1]) {
 			fail++
 			continue
 		}
 		if fr, ok := core.AsFieldLoad(r.Results[0]); ok && fr.Owner == "Result" && fr.Field == "out" && core.IsNilConst(r.Results[1]) {
 			// of the Result returned by Call
-			for _, s := range core.Sources(loadBaseValue(fr.Base)) {
-				if s == ssa.Value(callCall) {
-					succ = true
-				}
+			if only(loadBaseValue(fr.Base), func(s ssa.Value) bool { return s == ssa.Value(callCall) }) {
+				succ = true
 			}
 		}
 	}
-	c.R.Add("CONVERT", "convertMulti|returns-call-outputs", core.FuncName(cm), p.Pos(cm.Pos()), succ && fail == 2 && len(core.Returns(cm)) == 3,
-		"convertMulti returns the raw outputs of that Call, or (nil, error) — nothing else", fmt.Sprintf("success-return=%v failure-returns=%d total=%d", succ, fail, len(core.Returns(cm))))
+	c.R.Add("CONVERT", "convertMulti|returns-call-outputs", core.FuncName(cm), p.Pos(cm.Pos()), succ && fail == 2 && len(rets) == 3,
+		"convertMulti returns the raw outputs of that Call, or (nil, error) — nothing else", fmt.Sprintf("success-return=%v failure-returns=%d total=%d", succ, fail, len(rets)))
 
-	// ---- the identity-function builder
-	bf := builderCall.Common().StaticCallee()
-	c.R.Func(core.FuncName(bf))
-	var funcOf, makeFunc, newFunc *ssa.Call
-	for _, ci := range core.Calls(bf) {
-		switch core.CalleeName(ci.Common()) {
-		case "reflect.FuncOf":
-			funcOf, _ = ci.(*ssa.Call)
-		case "reflect.MakeFunc":
-			makeFunc, _ = ci.(*ssa.Call)
-		}
-		if ci.Common().StaticCallee() == nf {
-			newFunc, _ = ci.(*ssa.Call)
-		}
-	}
-	if funcOf == nil || makeFunc == nil || newFunc == nil {
-		c.R.Undecided("CONVERT", "identity|shape", core.FuncName(bf), p.Pos(bf.Pos()), "identity-function builder does not use FuncOf/MakeFunc/NewFunc")
-		return
-	}
-	fa := funcOf.Common().Args
-	sigOK := fa[0] == ssa.Value(bf.Params[0]) && fa[1] == ssa.Value(bf.Params[0])
+	// ---- the identity function
+	bf := funcOf.Parent()
 	variadic, _ := fa[2].(*ssa.Const)
 	c.R.Add("CONVERT", "identity|signature", core.FuncName(bf), p.InstrPos(funcOf), sigOK && variadic != nil && variadic.Value.ExactString() == "false",
 		"the synthesized function has the target types both as parameters and as results (func(T) T), non-variadic", fmt.Sprintf("in=out=target: %v", sigOK))
@@ -177,36 +193,15 @@ func runConvert(c *Ctx) {
 		}
 	}
 	c.R.Add("CONVERT", "identity|body-returns-arguments", core.FuncName(bf), p.InstrPos(makeFunc), bodyOK, "the synthesized function returns exactly the arguments it was called with", fmt.Sprintf("ok=%v", bodyOK))
-	// NewFunc on that function, no options; result returned directly (no cache)
+	// NewFunc on that function, no options
 	nfOK := false
 	if cl, ok := newFunc.Common().Args[0].(*ssa.Call); ok && core.CalleeName(cl.Common()) == "(reflect.Value).Interface" && cl.Common().Args[0] == ssa.Value(makeFunc) {
 		nfOK = len(newFunc.Common().Args) == 2 && core.IsNilConst(newFunc.Common().Args[1])
 	}
 	c.R.Add("CONVERT", "identity|wrapped-without-options", core.FuncName(bf), p.InstrPos(newFunc), nfOK, "the synthesized function is wrapped by NewFunc with no default options", fmt.Sprintf("ok=%v", nfOK))
-	direct := true
-	for _, r := range core.Returns(bf) {
-		for _, s := range core.Sources(r.Results[0]) {
-			if core.IsNilConst(s) {
-				continue
-			}
-			if e, ok := s.(*ssa.Extract); ok && e.Tuple == ssa.Value(newFunc) {
-				continue
-			}
-			if s == ssa.Value(newFunc) {
-				continue
-			}
-			direct = false
-		}
-	}
-	// `return NewFunc(...)` forwards the tuple
-	for _, r := range core.Returns(bf) {
-		if len(r.Results) == 2 {
-			if e, ok := r.Results[0].(*ssa.Extract); ok && e.Tuple == ssa.Value(newFunc) {
-				continue
-			}
-		}
-	}
-	c.R.Add("CONVERT", "identity|fresh-per-call", core.FuncName(bf), p.Pos(bf.Pos()), direct, "every conversion builds its own identity function (nothing cached or shared between target types)", fmt.Sprintf("ok=%v", direct))
+	// fresh per call: the builder is executed on every path to Call (it dominates it), so nothing is cached or shared
+	fresh := recvOK && p.IDominates(newFunc, callCall, cm) && p.IDominates(makeFunc, newFunc, cm)
+	c.R.Add("CONVERT", "identity|fresh-per-call", core.FuncName(bf), p.Pos(bf.Pos()), fresh, "every conversion builds its own identity function (nothing cached or shared between target types)", fmt.Sprintf("ok=%v", fresh))
 }
 
 func sliceLiteralElems(v ssa.Value) []ssa.Value {
